@@ -98,9 +98,43 @@ private:
   simsched::ThreadRec *rec_;
 };
 
+// std::atomic<T>: the real atomic does the memory operation; the simulator is told about it so that (a) the
+// happens-before monitor knows the synchronisation it provides (every operation is treated as acquire+release, i.e. at
+// least as strong as what was asked for: never a false "unordered" report) and (b) it is a scheduling point.
+void sim_atomic_event(const void *addr, int kind);   // kind: 0 load, 1 store, 2 read-modify-write; called BEFORE the operation
+void sim_atomic_after(const void *addr, int kind);   // called AFTER it
+
+template <class T> class sim_atomic {
+  std::atomic<T> v_;
+public:
+  sim_atomic() noexcept = default;
+  constexpr sim_atomic(T d) noexcept : v_(d) {}
+  sim_atomic(const sim_atomic &) = delete;
+  sim_atomic &operator=(const sim_atomic &) = delete;
+  T load(std::memory_order = std::memory_order_seq_cst) const noexcept { sim_atomic_event(this, 0); T r = v_.load(); sim_atomic_after(this, 0); return r; }
+  void store(T d, std::memory_order = std::memory_order_seq_cst) noexcept { sim_atomic_event(this, 1); v_.store(d); sim_atomic_after(this, 1); }
+  T exchange(T d, std::memory_order = std::memory_order_seq_cst) noexcept { sim_atomic_event(this, 2); T r = v_.exchange(d); sim_atomic_after(this, 2); return r; }
+  bool compare_exchange_strong(T &e, T d, std::memory_order = std::memory_order_seq_cst, std::memory_order = std::memory_order_seq_cst) noexcept { sim_atomic_event(this, 2); bool r = v_.compare_exchange_strong(e, d); sim_atomic_after(this, 2); return r; }
+  bool compare_exchange_weak(T &e, T d, std::memory_order = std::memory_order_seq_cst, std::memory_order = std::memory_order_seq_cst) noexcept { sim_atomic_event(this, 2); bool r = v_.compare_exchange_strong(e, d); sim_atomic_after(this, 2); return r; }
+  template <class U = T> U fetch_add(U d, std::memory_order = std::memory_order_seq_cst) noexcept { sim_atomic_event(this, 2); U r = v_.fetch_add(d); sim_atomic_after(this, 2); return r; }
+  template <class U = T> U fetch_sub(U d, std::memory_order = std::memory_order_seq_cst) noexcept { sim_atomic_event(this, 2); U r = v_.fetch_sub(d); sim_atomic_after(this, 2); return r; }
+  template <class U = T> U fetch_or(U d, std::memory_order = std::memory_order_seq_cst) noexcept { sim_atomic_event(this, 2); U r = v_.fetch_or(d); sim_atomic_after(this, 2); return r; }
+  template <class U = T> U fetch_and(U d, std::memory_order = std::memory_order_seq_cst) noexcept { sim_atomic_event(this, 2); U r = v_.fetch_and(d); sim_atomic_after(this, 2); return r; }
+  operator T() const noexcept { return load(); }
+  T operator=(T d) noexcept { store(d); return d; }
+  template <class U = T> U operator++() noexcept { return fetch_add(U(1)) + U(1); }
+  template <class U = T> U operator++(int) noexcept { return fetch_add(U(1)); }
+  template <class U = T> U operator--() noexcept { return fetch_sub(U(1)) - U(1); }
+  template <class U = T> U operator--(int) noexcept { return fetch_sub(U(1)); }
+  template <class U = T> U operator+=(U d) noexcept { return fetch_add(d) + d; }
+  template <class U = T> U operator-=(U d) noexcept { return fetch_sub(d) - d; }
+  bool is_lock_free() const noexcept { return v_.is_lock_free(); }
+};
+
 } // namespace std
 
 #define mutex sim_mutex
+#define atomic sim_atomic
 #define condition_variable sim_condition_variable
 #define thread sim_thread
 #endif // __cplusplus
